@@ -142,6 +142,15 @@ class LnLOracle:
         subsets_needed = sorted({tuple(s) for i in todo for r in range(1, len(trig[i]) + 1) for s in itertools.combinations(trig[i], r)},
                                 key=lambda s: (len(s), s))
         remaining = set(todo)
+        # the correct semantics inside the conditioning bound (K5) take precedence over a twin: a row on which a finding's
+        # effect is below the numerical noise floor says nothing about that finding
+        rows0 = [i for i in sorted(remaining) if trust0[i]]
+        if rows0:
+            fb = self.forward_bound(rows0, frozenset())
+            for k, i in enumerate(rows0):
+                if np.isfinite(fb[k]) and fb[k] > 0 and abs(impl[i] - ref0[i]) <= fb[k] + band1(ref0[i]):
+                    verdicts[i] = ("known", ("K5",))
+                    remaining.discard(i)
         for sub in subsets_needed:
             if not remaining:
                 break
@@ -153,12 +162,14 @@ class LnLOracle:
                 if tt[i] and abs(impl[i] - rt[i]) <= band1(rt[i]):
                     verdicts[i] = ("known", tuple(sub))
                     remaining.discard(i)
-        # K5: conditioning band, against the correct reference and against every triggered twin combination
+        # K5: conditioning band, against the correct reference and against every triggered twin combination; among the
+        # semantics whose band contains the value, the one naming the fewest findings (then the closest) is chosen
         if remaining:
             rem = sorted(remaining)
             cands = [frozenset()] + [frozenset(s) for s in subsets_needed]
+            best = {}
             for tw in cands:
-                rows = [i for i in rem if i in remaining and set(tw) <= set(trig[i])]
+                rows = [i for i in rem if set(tw) <= set(trig[i])]
                 if not rows:
                     continue
                 rt, tt = self.ref(tw)
@@ -167,9 +178,15 @@ class LnLOracle:
                     # under K4 the kernel divides by a zero prior variance (A^-1 has an infinite entry): when that makes the
                     # route's error bound unbounded, any value is attributable to K4 (+K5)
                     unbounded_k4 = ("K4" in tw) and not np.isfinite(inst[k])
-                    if unbounded_k4 or (np.isfinite(inst[k]) and abs(impl[i] - rt[i]) <= inst[k] + band1(rt[i]) and inst[k] > 0):
-                        verdicts[i] = ("known", tuple(sorted(tw)) + ("K5",))
-                        remaining.discard(i)
+                    dev = abs(impl[i] - rt[i])
+                    if unbounded_k4 or (np.isfinite(inst[k]) and dev <= inst[k] + band1(rt[i]) and inst[k] > 0):
+                        # fewest findings first (a finding whose effect is below the noise floor is not named), then closest
+                        score = (len(tw), dev if np.isfinite(dev) else np.inf)
+                        if i not in best or score < best[i][0]:
+                            best[i] = (score, tuple(sorted(tw)) + ("K5",))
+            for i, (_, ids) in best.items():
+                verdicts[i] = ("known", ids)
+                remaining.discard(i)
         for i in remaining:
             verdicts[i] = ("violation", "marginal ln-likelihood differs from the closed-form Gaussian marginal "
                            f"(triggered findings {trig[i]} do not explain it)", float(ref0[i]), float(impl[i]))
